@@ -86,9 +86,9 @@ bool tActisenseReader::CheckMessage(tN2kMsg &N2kMsg) {
    }
    N2kMsg.DataLen=MsgBuf[i++];
 
-   if ( N2kMsg.DataLen>tN2kMsg::MaxDataLen ) {
+   if ( N2kMsg.DataLen>tN2kMsg::MaxDataLen || i+N2kMsg.DataLen!=MsgWritePos-1 ) {
      N2kMsg.Clear();
-     return false; // Too long data
+     return false; // Too long data or data length does not match to message length
    }
 
    for (int j=0; i<MsgWritePos-1; i++, j++) N2kMsg.Data[j]=MsgBuf[i];
